@@ -1,3 +1,4 @@
+import Pyrtma.Model.Sha256
 /-!
 # M8 — the canonical text that is hashed (src/pyrtma/parser.py: handle_message_def / handle_signal / handle_struct)
 
@@ -10,7 +11,17 @@ Strings are `List Char` so that the theorems need no `String` lemmas.  The text 
 `textwrap.dedent` is modelled on lines: lines consisting only of blanks and tabs become empty; the common margin
 it would strip is always empty because the first line is `NAME:` and `check_name` (which runs before hashing) makes
 `NAME` start with a letter.  Line-level and text-level agree as long as no component contains a newline.
-SHA-256 itself stays in Python's hashlib: the harness hashes the text this model prints.
+
+SHA-256 is inside the model (`Model/Sha256.lean`, validated against hashlib on every run): `digestHex d` is the
+parser's `MDF.hash` / `SDF.hash` (`sha256(raw.encode()).hexdigest()`), `hash32 d` is `int(hash[:8], 16)` — the number
+`compilers/python.py` prints as `type_hash`, `c99.py` as `HASH_<NAME>`, `javascript.py` / `matlab.py` as the 8-digit
+string `RTMA.HASH.<NAME>` / `RTMA.hash.<NAME>`, and `Client.send_message` copies into `header.version`.
+
+What the text is built from (the YAML-level facts): **not** a substring of the source file.  The parser re-renders
+the values the YAML loader delivered — the mapping key `name`, `mdf['id']` through `str()` (an int prints in
+decimal whatever its spelling in the file), and the items of `mdf['fields']` in mapping order, each value through
+`str()` — so comments, blank lines, quoting, key order (`fields` before `id`), hex spelling of the id, the file, its
+directory and everything else the parser has seen are not inputs.  `Def` is exactly that loaded value.
 -/
 namespace Pyrtma.HashText
 
@@ -67,5 +78,56 @@ def isBlank (c : Char) : Bool := c == ' ' || c == '\t'
 def dedentLine (l : Str) : Str := if l.all isBlank then [] else l
 
 def rawText (d : Def) : Option Str := (rawLines d).map (fun ls => joinWith ['\n'] (ls.map dedentLine))
+
+/-- `sha256(text.encode()).hexdigest()` -/
+def textDigest (t : Str) : Str := Sha256.hexDigest (Sha256.utf8 t)
+
+/-- `int(sha256(text.encode()).hexdigest()[:8], 16)`: SHA-256 truncated to its first 32 bits -/
+def text32 (t : Str) : Nat := Sha256.word0 (Sha256.utf8 t)
+
+/-- `MDF.hash` / `SDF.hash` -/
+def digestHex (d : Def) : Option Str := (rawText d).map textDigest
+
+/-- the version hash: `type_hash`, `HASH_<NAME>`, `RTMA.HASH.<NAME>`, `header.version` -/
+def hash32 (d : Def) : Option Nat := (rawText d).map text32
+
+/-! ### the registration walk: where a definition sits is not an input of its hash
+
+`Parser.parse` reaches the definitions one after the other (file by file in the order of the import walk, inside a
+file `struct_defs` before `message_defs`, each in mapping order) and stores for each one an `SDF` / `MDF` made of
+`raw`, `hash`, `name`, (`type_id`,) and `src = trim_root(current_file)`.  `src` is the only stored component that
+looks at the location; `raw` and `hash` are computed from the loaded value alone. -/
+
+/-- the part of a stored `MDF` / `SDF` that C13 is about -/
+structure Stored where
+  name : Str
+  raw : Str
+  hash : Str          -- `sha256(raw.encode()).hexdigest()`
+  src : Str           -- path of the defining file relative to the root: depends on the location, the hash must not
+deriving Repr, DecidableEq, Inhabited
+
+/-- one file as the walk reaches it: its path and the definitions it registers, in order -/
+structure SrcFile where
+  path : Str
+  defs : List Def
+deriving Repr, DecidableEq, Inhabited
+
+def storeDef (path : Str) (d : Def) : Option Stored :=
+  (rawText d).map (fun t => { name := d.name, raw := t, hash := textDigest t, src := path })
+
+def registerDefs (path : Str) : List Def → List Stored → Option (List Stored)
+  | [], reg => some reg
+  | d :: ds, reg =>
+    match storeDef path d with
+    | none => none                                -- the code crashes here (`None.items()`)
+    | some s => registerDefs path ds (reg ++ [s])
+
+/-- `struct_defs` and `message_defs` after the whole walk (insertion order) -/
+def registerAll : List SrcFile → List Stored → Option (List Stored)
+  | [], reg => some reg
+  | f :: fs, reg =>
+    match registerDefs f.path f.defs reg with
+    | none => none
+    | some reg' => registerAll fs reg'
 
 end Pyrtma.HashText
